@@ -5,7 +5,7 @@ Scenario (JSON-able):
   seed, workload: "producer" | "idem" | "txn" | "group" | "assign"
   nnodes, nparts
   cond: cluster condition applied `lead` seconds BEFORE the stop
-        ["healthy"] | ["down", node] | ["blackhole", node] | ["failover", node, keep_state] | ["alldown"] | ["allblack"]
+        ["healthy"] | ["down", node] (reset) | ["shutdown", node] (EOF) | ["reap"] (EOF on every connection, nodes stay up) | ["blackhole", node] | ["failover", node, keep_state] | ["alldown"] | ["allblack"]
   stop_at: virtual seconds after the client started (None: baseline run, records loop iteration times)
   other: a second group member joins at this time (rebalance in progress around the stop), or None
 
@@ -138,6 +138,19 @@ def run_scenario(sc: dict):
             cl.kill_node(c[1])
         elif k == "blackhole":
             cl.blackhole.add(c[1])
+        elif k == "reap":
+            # the brokers close THEIR end of every connection in an orderly way (idle-connection reaper, proxy, rolling
+            # listener reload): the client's reader sees EOF, the transport stays open until the client closes it; nodes stay up
+            for tr in list(cl.conns):
+                cl.conns.discard(tr)
+                tr.server_close(None)
+        elif k == "shutdown":
+            # controlled shutdown of one broker: its connections end with EOF (FIN), not with a reset
+            cl.kill_node(c[1], close_conns=False)
+            for tr in list(cl.conns):
+                if tr.node.id == c[1]:
+                    cl.conns.discard(tr)
+                    tr.server_close(None)
         elif k == "alldown":
             for n in list(cl.nodes):
                 cl.kill_node(n)
